@@ -180,6 +180,7 @@ def concrete_verdict(kinds):
 SLICES = {
     "ops": ["IDENTIFIER", "NUMBER", "PLUS", "MINUS", "STAR", "SLASH", "COLON", "STAR_STAR", "PIPE", "TILDE", "EQUAL_EQUAL", "LESS", "LEFT_PAREN", "RIGHT_PAREN"],
     "cmp": ["IDENTIFIER", "LEFT_BRACE", "RIGHT_BRACE", "EQUAL_EQUAL", "BANG_EQUAL", "LESS", "GREATER_EQUAL", "PLUS"],
+    "chain_pm": ["PLUS", "MINUS"], "chain_pc": ["PLUS", "COLON"], "chain_ss": ["STAR", "SLASH"], "chain_ms": ["MINUS", "STAR"], "chain_pmc": ["PLUS", "MINUS", "COLON"], "chain_pipe": ["PLUS", "PIPE"],
     "calls": ["IDENTIFIER", "LEFT_PAREN", "RIGHT_PAREN", "COMMA", "EQUAL", "NUMBER", "STRING", "PLUS", "LEFT_BRACKET", "RIGHT_BRACKET", "LEFT_BRACE", "RIGHT_BRACE"],
 }
 
@@ -192,7 +193,11 @@ def h1(c, n, with_parens, alphabet=None):
     LazyTok = h1.LazyTok
     kinds = SLICES[alphabet] if alphabet else KINDS
     tag = f"{alphabet}_" if alphabet else ""
-    toks = [LazyTok(i, symx.SymKind(f"k{tag}{i}", kinds, c)) for i in range(n)]
+    if alphabet and alphabet.startswith("chain_"):
+        # long flat chains: names at the even positions, one of a few operators at the odd ones
+        toks = [LazyTok(i, symx.SymKind(f"k{tag}{i}", ["IDENTIFIER"] if i % 2 == 0 else kinds, c)) for i in range(n)]
+    else:
+        toks = [LazyTok(i, symx.SymKind(f"k{tag}{i}", kinds, c)) for i in range(n)]
     toks.append(Token("EOF", ""))
 
     parser = Parser(list(toks))
@@ -583,7 +588,12 @@ def ref_lex(code):
 def h2(c, l, alphabet):
     from formulae.scanner import Scanner
 
-    chars = [symx.SymKind(f"c{i}", alphabet, c) for i in range(l)]
+    if isinstance(alphabet, dict):
+        # a concrete prefix (one-element domains) followed by l symbolic characters
+        pre = alphabet["prefix"]
+        chars = [symx.SymKind(f"p{i}", [ch], c) for i, ch in enumerate(pre)] + [symx.SymKind(f"c{i}", alphabet["chars"], c) for i in range(l)]
+    else:
+        chars = [symx.SymKind(f"c{i}", alphabet, c) for i in range(l)]
     code = SymStr(chars)
     try:
         toks = Scanner(code).scan()
@@ -868,8 +878,10 @@ def run(tier, seed):
     ]
     if tier == "quick":
         N, NP, L_full, L_multi, NS_ops, NS_calls, NS_cmp = 5, 4, 3, 4, 5, 7, 7
+        NCH, NCH3 = 10, 6
     else:
         N, NP, L_full, L_multi, NS_ops, NS_calls, NS_cmp = 6, 5, 4, 5, 7, 9, 8
+        NCH, NCH3 = 13, 8
     NS_cmp = int(os.environ.get("C01_NS_CMP", NS_cmp))
     NS_ops = int(os.environ.get("C01_NS_OPS", NS_ops))
     NS_calls = int(os.environ.get("C01_NS_CALLS", NS_calls))
@@ -880,10 +892,11 @@ def run(tier, seed):
     rep.bounds = {
         "H1 parser: sentence length (tokens, excluding EOF)": f"0..{N} over all {len(KINDS)} token kinds (kinds are solver variables)",
         "H1 redundant-parentheses re-parse": f"sentences up to {NP} tokens",
-        "H1 slices (restricted alphabets, longer sentences)": f"operator slice {SLICES['ops']} up to {NS_ops} tokens; call slice {SLICES['calls']} up to {NS_calls} tokens; comparison-in-braces slice {SLICES['cmp']} up to {NS_cmp} tokens",
+        "H1 slices (restricted alphabets, longer sentences)": f"operator slice {SLICES['ops']} up to {NS_ops} tokens; call slice {SLICES['calls']} up to {NS_calls} tokens; comparison-in-braces slice {SLICES['cmp']} up to {NS_cmp} tokens; flat chains name (op name)^k with op from {{+,-}}, {{+,:}}, {{*,/}}, {{-,*}} for k <= {NCH} and from {{+,-,:}} for k <= {NCH3}",
         "H2 scanner: string length, full alphabet": f"1..{L_full} over {len(ALPHABET_FULL)} characters {''.join(ALPHABET_FULL)!r}",
         "H2 scanner: string length, multi-character-token alphabet": f"1..{L_multi} over {''.join(ALPHABET_MULTI)!r}",
         "H2 scanner: keyword-literal slice": "all strings of length 4 over 'TtRrUuEeNnOo'" + ("" if tier == "quick" else " and of length 5 over 'FfAaLlSsEe'"),
+        "H2 scanner: long numeric literals": "four concrete digit prefixes of 14-20 characters followed by two characters over '0123456789.'",
     }
     rep.outside = [
         "sentences longer than the stated bounds (the 'unbounded depth' part of the quantifier is not reachable by a bounded technique)",
@@ -903,11 +916,19 @@ def run(tier, seed):
     for alph, lo, hi in (("ops", N + 1, NS_ops), ("calls", N + 1, NS_calls), ("cmp", N + 1, NS_cmp)):
         for n in range(hi, lo - 1, -1):
             jobs.append({"kind": "h1", "n": n, "parens": False, "alphabet": alph})
+    for alph in ("chain_pm", "chain_pc", "chain_ss", "chain_ms"):
+        for k in range(NCH, 2, -1):
+            jobs.append({"kind": "h1", "n": 2 * k + 1, "parens": False, "alphabet": alph})
+    for k in range(NCH3, 2, -1):
+        jobs.append({"kind": "h1", "n": 2 * k + 1, "parens": False, "alphabet": "chain_pmc"})
     for l in range(L_multi, L_full, -1):
         jobs.append({"kind": "h2", "l": l, "alphabet": ALPHABET_MULTI})
     for l in range(L_full, 0, -1):
         jobs.append({"kind": "h2", "l": l, "alphabet": ALPHABET_FULL})
     jobs.append({"kind": "h2", "l": 4, "alphabet": ALPHABET_KW, "tag": "kw"})
+    # long numeric literals: 14-17 concrete digits followed by two symbolic characters
+    for pre in ("90071992547409", "17000000001234567", "0.1234567890123", "12345678901234567890"):
+        jobs.append({"kind": "h2", "l": 2, "alphabet": {"prefix": pre, "chars": list("0123456789.")}, "tag": "long-number:" + pre})
     if tier != "quick":
         jobs.append({"kind": "h2", "l": 5, "alphabet": ALPHABET_KW5, "tag": "kw5"})
     results = core.run_tree(_work, jobs)
